@@ -718,4 +718,12 @@ for _d in (True, False):
 task_run_alloff = _cfg_task(False, (False, False, False), False, False, False)
 
 TASKS_QUICK = ["n_timepoints", "append_vectors", "append_data", "xyz_write"] + sorted(_CONFIGS) + ["run_alloff", "resume_D_CVF", "resume_d_cVf"]
-TASKS_THOROUGH = TASKS_QUICK
+# thorough: the resumed-run loop contract for every enable pattern of the streams (quick has two of the sixteen)
+_RESUME_ALL = []
+for _name, (_d, _m) in sorted(_CONFIGS.items()):
+    _rn = _name.replace("run_", "resume_")
+    if "task_" + _rn not in globals():
+        globals()["task_" + _rn] = _resume_cfg_task(_d, _m)
+    if _rn not in ("resume_D_CVF", "resume_d_cVf") and (_d or any(_m)):
+        _RESUME_ALL.append(_rn)
+TASKS_THOROUGH = TASKS_QUICK + _RESUME_ALL
